@@ -249,3 +249,63 @@ def mk_effective(tid, file, qual, attr, default_field, has_ref):
 mk_effective('elements.XsdElement.block', F, 'XsdElement.block', '_block', 'block_default', True)
 mk_effective('elements.XsdElement.final', F, 'XsdElement.final', '_final', 'final_default', True)
 mk_effective('complex_types.XsdComplexType.block', 'xmlschema/validators/complex_types.py', 'XsdComplexType.block', '_block', 'block_default', False)
+
+
+# ------------------------------------------------------------------ XsdComplexType.is_derived: a requested derivation method is looked for along the WHOLE chain
+t = Target('complex_types.XsdComplexType.is_derived', ['C07', 'C14'], 'xmlschema/validators/complex_types.py', 'XsdComplexType.is_derived',
+           note='is_derived(other, d) for a complex type with complex content whose base is neither `other` nor missing: the own derivation step consumes the requested method '
+                'when it matches (the answer is then plain derivation of the base from other) and is otherwise irrelevant - the question is passed unchanged to the base type, '
+                'it is never answered False because the own step uses the other method (a blocked step may be any step of the chain); base cases: the type itself and its '
+                'direct base (derived, by a step of the requested method only if that is the own method), xs:anyType (never by extension only)',
+           assumes=['the recursive call on the base type is an uninterpreted function R(base, other, d) (induction over the finite base chain)',
+                    'simple content, union targets and element references are outside this contract (exercised by the bounded C07 family)'])
+
+
+@t.symbolic
+def _(run):
+    ex = run.exec(); st = new_state()
+    d = z3.String('derivation'); dnone = z3.Bool('derivation_none'); own = z3.String('own_derivation'); own_none = z3.Bool('own_derivation_none')
+    same = z3.Bool('self_is_other'); base_is_other = z3.Bool('base_is_other'); any_type = z3.Bool('other_is_anyType')
+    R = z3.Function('base_is_derived', B, S, B)          # (derivation is None, derivation) -> result of base_type.is_derived(other, derivation)
+    st.objf['other'] = {'ref': NONE, 'name': VStr(z3.If(any_type, SV('{http://www.w3.org/2001/XMLSchema}anyType'), SV('{urn:x}T')))}
+    st.objf['base'] = {}; st.objf['self'] = {'derivation': VOpt(own_none, VStr(own)), 'ref': NONE, 'base_type': VObj('base')}
+    st.env.update(self=VObj('self'), other=VObj('other'), derivation=VOpt(dnone, VStr(d)))
+    ex.names[('nm', 'XSD_ANY_TYPE')] = VStr(SV('{http://www.w3.org/2001/XMLSchema}anyType')); ex.names['XsdUnion'] = OPAQUE; ex.names['XsdSimpleType'] = OPAQUE
+    ex.callees['isinstance'] = lambda e, s, r, a, k: VBool(z3.BoolVal(False))
+    ex.callees['has_simple_content'] = lambda e, s, r, a, k: VBool(z3.BoolVal(False))
+
+    def is_derived(e, s, recv, a, k):
+        x = a[1] if len(a) > 1 else k.get('derivation', NONE)
+        if isinstance(x, VNone): return VBool(R(z3.BoolVal(True), SV('')))
+        if isinstance(x, VOpt): return VBool(R(x.none, z3.If(x.none, SV(''), x.val.t)))
+        return VBool(R(z3.BoolVal(False), x.t))
+    ex.callees['is_derived'] = is_derived
+    orig_cmp = ex.cmp
+
+    def cmp(op, l_, r_, s):
+        if isinstance(op, (ast.Is, ast.IsNot)) and isinstance(l_, VObj) and isinstance(r_, VObj):
+            pair = {l_.name, r_.name}; pos = isinstance(op, ast.Is)
+            if pair == {'self', 'other'}: return same if pos else z3.Not(same)
+            if pair == {'base', 'other'}: return base_is_other if pos else z3.Not(base_is_other)
+            if pair == {'base', 'self'}: return z3.BoolVal(not pos)
+        if isinstance(op, (ast.Is, ast.IsNot)) and {type(l_), type(r_)} == {VNone, VObj}: return z3.BoolVal(isinstance(op, ast.IsNot))
+        return orig_cmp(op, l_, r_, s)
+    ex.cmp = cmp
+    meth = lambda x: z3.Or(x == SV('extension'), x == SV('restriction'))
+    pre = z3.And(z3.Implies(z3.Not(dnone), meth(d)), z3.Implies(z3.Not(own_none), meth(own)), z3.Not(z3.And(same, base_is_other)))
+    run.inputs.update(derivation=('opt', dnone, d), own_derivation=('opt', own_none, own), self_is_other=same, base_is_other=base_is_other, other_is_anyType=any_type)
+    outs = ex.run(st, pre)
+    consumed = z3.And(z3.Not(dnone), z3.Not(own_none), d == own)          # the own step is of the requested method
+    d_after_none = z3.Or(dnone, consumed)
+
+    def spec(kind, v, s):
+        if kind != 'return' or not isinstance(v, VBool): return z3.BoolVal(False)
+        up = R(d_after_none, z3.If(d_after_none, SV(''), d))
+        return v.t == z3.If(same, z3.BoolVal(True), z3.If(any_type, z3.Or(d_after_none, d != SV('extension')), z3.If(base_is_other, d_after_none, up)))
+
+    def keeps_looking(kind, v, s):
+        # the clause the property needs, stated on its own: own step of the OTHER method => exactly the base's answer to the unchanged question
+        if kind != 'return' or not isinstance(v, VBool): return z3.BoolVal(False)
+        other_method = z3.And(z3.Not(dnone), z3.Not(own_none), d != own, z3.Not(same), z3.Not(any_type), z3.Not(base_is_other))
+        return z3.Implies(other_method, v.t == R(z3.BoolVal(False), d))
+    run.post(ex, outs, pre, {'result-is-the-chain-reading': spec, 'a-step-of-the-other-method-does-not-end-the-search': keeps_looking})
